@@ -115,8 +115,8 @@ Proof.
   - destruct a, b; nodup_tac.
 Qed.
 
-Lemma trim_start4_id b : has_prefix start4 b = false -> trim_prefix start4 b = b.
-Proof. intros H. unfold trim_prefix. rewrite H. reflexivity. Qed.
+Lemma trim_start4_id b : has_prefix start4 b = false -> strip_all start4 b = b.
+Proof. intros H. unfold strip_all. destruct b as [|x t]; [reflexivity|]. cbn [strip_all_aux]. rewrite H. reflexivity. Qed.
 
 Lemma nz_kv_cases k n : (n = 0 /\ nz_kv k n = []) \/ (n <> 0 /\ nz_kv k n = [(k, print_dec n)]).
 Proof. unfold nz_kv. destruct (N.eqb_spec n 0); auto. Qed.
